@@ -241,7 +241,9 @@ def run(ctx):
     wl = m.fn("metrics::recorder::with_local_recorder")
     if need(chk, "C01.b", "with_local_recorder", wl):
         b = wl.body
-        news = [c for c in nonforeign_calls(wl) if _calls_role(c, ctors)]
+        # the guard comes from the private constructor, or from the exported wrapper that is decided (below) to return
+        # exactly constructor(recorder)
+        news = [c for c in nonforeign_calls(wl) if _calls_role(c, ctors) or c.is_("recorder::set_default_local_recorder")]
         fcalls = [c for c in nonforeign_calls(wl) if c.is_("FnOnce::call_once") and (sym_arg(arg_syms(c)[0]) or (None,))[0] == 1]
         if len(news) != 1 or len(fcalls) != 1:
             chk.ob("C01.b", f"{wl.path} [guard scope]", False, f"expected one guard construction and one call of f, found {len(news)}/{len(fcalls)}", wl.loc())
@@ -327,6 +329,9 @@ def run(ctx):
     chk.analysed["Recorder impls in metrics"] = len(impls)
     if ctx.config == "default":
         run_macros(ctx)
+    from props.common import import_rules
+
+    import_rules(ctx, "C02", {"C02.a", "C02.b"}, "C01.h", "imported from C02 (the global recorder the emissions fall through to): one strong CAS elects the installer, the state word is restored/published on every path, and the lookup reads the slot only in the INITIALIZED state on every emission — otherwise emissions outside local scopes reach the no-op recorder (or a half-written one) although a global recorder is installed", floor=8)
 
 
 def run_config(ctx):
@@ -359,6 +364,44 @@ def _static_ref(s):
     return None
 
 
+def macro_public_arms(body):
+    """(number of user-facing arms, number of internal `@rule` arms that some arm forwards to, internal arms nobody uses)
+    from the driver's token dump of a macro_rules! body: top-level `(matcher) => {body}` pairs; an arm whose matcher
+    starts with `@ident` is an internal rule, reachable only through the arms that forward to it."""
+    toks = body.split()
+    depth = 0
+    groups = []  # (start index, end index) of top-level delimited groups
+    start = None
+    for i, t in enumerate(toks):
+        if t.startswith("<") and t[1:] in ("Parenthesis", "Brace", "Bracket", "Invisible"):
+            if depth == 0:
+                start = i
+            depth += 1
+        elif t == ">":
+            depth -= 1
+            if depth == 0 and start is not None:
+                groups.append((start, i))
+                start = None
+    arms = []
+    for gi, (a, b_) in enumerate(groups):
+        if b_ + 1 < len(toks) and toks[b_ + 1] == "FatArrow":
+            inner = toks[a + 1 : b_]
+            internal = None
+            if inner and inner[0] == "At" and len(inner) > 1 and inner[1].startswith("Ident("):
+                internal = inner[1]
+            arms.append(internal)
+    public = sum(1 for x in arms if x is None)
+    used = unused = 0
+    for x in {y for y in arms if y is not None}:
+        refs = sum(1 for i in range(len(toks) - 1) if toks[i] == "At" and toks[i + 1] == x)
+        n = sum(1 for y in arms if y == x)
+        if refs > n:
+            used += n
+        else:
+            unused += n
+    return public, used, unused
+
+
 def run_macros(ctx):
     chk = ctx.check
     chk.rule("C01.f", "MACRO expansion witness: for every arm (4 prefix forms x 6 key_var arms x 3 kinds, 3 describe forms x 3 kinds) the expansion contains exactly one with_recorder call whose closure calls exactly one Recorder method of the macro's kind; name/label markers reach Key construction in order; Metadata::new(target marker | module_path, level marker | Level::INFO, Some(module_path)); describe passes Into::into(name), Some(unit)/None, Into::into(description); the macro arm counts in /repo equal the counts the witness covers", floor=81 + 9)
@@ -376,6 +419,11 @@ def run_macros(ctx):
     for name, n in EXPECTED_ARMS.items():
         mac = m.macros.get(name)
         got = mac["arms"] if mac else None
+        if mac and mac.get("body"):
+            # internal `@rule` arms are not call forms: they are exercised through the public arms that forward to them
+            pub_, used_, unused_ = macro_public_arms(mac["body"])
+            if pub_ + used_ + unused_ > 0 and unused_ == 0:
+                got = pub_
         chk.ob("C01.f", f"macro {name}! [arm count]", got == n, f"{got} arms, all instantiated by the witness" if got == n else f"macro has {got} arms but the witness covers {n}: an arm is not covered (or was removed)", f"{mac['file']}:{mac['ln']}" if mac else "", nontrivial=False)
 
     for f in x.fns:
